@@ -432,6 +432,29 @@ let run_surgery line =
     Printf.sprintf "%s %s %d" (d dn) (if ok then "ok" else "UB") (List.length h) ^
     String.concat "" (List.map (fun t -> Printf.sprintf " %s:%s:%s:%s:%s:%s:%s:%s" (d t.kty) (d t.kst) (d t.kln) (d t.knx) (d t.kpv) (d t.kch) (d t.ktl) (d t.kmt)) h)
 
+(* ---------- C15/C07 pair matcher: "op ; op ..." -> "<done> <ok> <n> type:start:len:next:prev:child:tail:mate:co:cc:um ..." *)
+let run_pairmatch line =
+  let nd = n_of_dec in
+  let b s = s <> "0" in
+  let parse o = match split_on ' ' o with
+    | ["N"; a; b; c] -> PNew (nd a, nd b, nd c)
+    | ["A"; a; b] -> PChain (nd a, nd b)
+    | ["P"; a; b] -> PParent (nd a, nd b)
+    | ["F"; t; x; y; z] -> PFlags (nd t, b x, b y, b z)
+    | ["E"; a; c; p; o] -> PPair (nd a, nd c, nd p, nd o)
+    | ["MP"; p] -> PMatch (nd p)
+    | _ -> failwith ("bad op " ^ o) in
+  let ops = List.map parse (List.filter (fun o -> o <> "") (List.map String.trim (String.split_on_char ';' line))) in
+  let ((s, dn), ok) = pm_run ({ hp = []; fl = [] }, []) ops N0 in
+  let d = dec_of_n in
+  let bi x = if x then "1" else "0" in
+  let fls = Array.of_list s.fl in
+  Printf.sprintf "%s %s %d" (d dn) (if ok then "ok" else "UB") (List.length s.hp) ^
+  String.concat "" (List.mapi (fun i t ->
+    let f = if i < Array.length fls then fls.(i) else { can_open = true; can_close = true; unmatched = true } in
+    Printf.sprintf " %s:%s:%s:%s:%s:%s:%s:%s:%s:%s:%s" (d t.kty) (d t.kst) (d t.kln) (d t.knx) (d t.kpv) (d t.kch) (d t.ktl) (d t.kmt)
+      (bi f.can_open) (bi f.can_close) (bi f.unmatched)) s.hp)
+
 let () =
   let model = Sys.argv.(1) in
   let f = match model with
@@ -451,6 +474,7 @@ let () =
     | "spec" -> run_spec
     | "blocks" -> run_blocks
     | "surgery" -> run_surgery
+    | "pairmatch" -> run_pairmatch
     | _ -> failwith "unknown model" in
   try while true do
     let line = input_line stdin in
